@@ -284,6 +284,20 @@ func c15Exec(in c15In) vh.Out {
 	timeNow = func() time.Time { return now }
 	defer func() { timeNow = oldNow }()
 
+	// every time value of the observations is written once (list `times` of the case) and referred to by its index
+	var times []string
+	timeIdx := map[string]int{}
+	tix := func(t time.Time) string {
+		z := c15Z(c15Abs(t))
+		i, ok := timeIdx[z]
+		if !ok {
+			i = len(times)
+			timeIdx[z] = i
+			times = append(times, z)
+		}
+		return vh.CoqN(uint64(i))
+	}
+	now0 := tix(c15Base)
 	var lrs []string
 	for i := 1; i <= in.N; i++ {
 		name := c15Name(i)
@@ -296,7 +310,7 @@ func c15Exec(in c15In) vh.Out {
 			SnapType:        "app",
 			LastRefreshTime: &lr,
 		})
-		lrs = append(lrs, vh.CoqTuple(vh.CoqN(uint64(i)), c15Z(c15Abs(lr))))
+		lrs = append(lrs, vh.CoqTuple(vh.CoqN(uint64(i)), tix(lr)))
 	}
 	names := func(l []int) []string {
 		var out []string
@@ -395,8 +409,8 @@ func c15Exec(in c15In) vh.Out {
 			sort.Strings(holders)
 			for _, g := range holders {
 				hs := gating[h][g]
-				table = append(table, vh.CoqTuple(vh.CoqN(uint64(c15ID(h))), vh.CoqN(uint64(c15ID(g))), c15Z(c15Abs(hs.FirstHeld)),
-					c15Z(c15Abs(hs.HoldUntil)), vh.CoqN(uint64(hs.Level))))
+				table = append(table, vh.CoqTuple(vh.CoqN(uint64(c15ID(h))), vh.CoqN(uint64(c15ID(g))), tix(hs.FirstHeld),
+					tix(hs.HoldUntil), vh.CoqN(uint64(hs.Level))))
 				jsTable = append(jsTable, fmt.Sprintf("%s<-%s first=%s until=%s level=%d", h, g, hs.FirstHeld.Format(time.RFC3339Nano),
 					hs.HoldUntil.Format(time.RFC3339Nano), hs.Level))
 			}
@@ -408,11 +422,11 @@ func c15Exec(in c15In) vh.Out {
 				sawHeld = true
 			}
 		}
-		steps = append(steps, fmt.Sprintf("(mkObs %s %s %s %s %s %s)", coqOp, res, vh.CoqList(table), vh.CoqList(h0), vh.CoqList(h1),
-			c15Z(c15Abs(now))))
+		steps = append(steps, fmt.Sprintf("(mkRObs %s %s %s %s %s %s)", coqOp, res, vh.CoqList(table), vh.CoqList(h0), vh.CoqList(h1),
+			tix(now)))
 		obs = append(obs, c15Step{Res: jsRes, Table: jsTable, Held0: j0, Held1: j1})
 	}
-	coq := fmt.Sprintf("(mkCase %s %s %s %s)", vh.CoqN(uint64(in.N)), vh.CoqList(lrs), c15Z(c15Abs(c15Base)), vh.CoqList(steps))
+	coq := fmt.Sprintf("(mkCase %s %s %s %s %s)", vh.CoqN(uint64(in.N)), vh.CoqList(times), vh.CoqList(lrs), now0, vh.CoqList(steps))
 	var tl []string
 	for t := range tags {
 		tl = append(tl, t)
